@@ -319,7 +319,9 @@ func (m *Model) Commit(w WS, o BuildOpts, p Prediction, started, ended map[strin
 			}
 		case fails || !ended[l]:
 			// failed executions record nothing; an existing entry for this key stays as it was
-		case p.Verdict[l] == May || p.ModeSwitch[l] || depUncertain(w, t, p):
+		case (p.Verdict[l] == May && (o.LoadOutputs == "minimal" || m.Faulty)) || p.ModeSwitch[l] || depUncertain(w, t, p):
+			// (a MAY target that ran in a fault-free load_outputs=all build ran at its own node with its current change hash:
+			// the entry it wrote is as good as any, see the default case)
 			// it ran, but the model does not know through which path (own node, or re-run on behalf of a
 			// dependant under load_outputs=minimal with a change hash derived from an older dependency state)
 			m.Cache[k] = "may"
